@@ -21,12 +21,29 @@
 (* of ThrottleProp decide Spacing, BoundedWait and NoSpuriousReject (with  *)
 (* the trace's float slack `tol'); what is owed across a reload is stated  *)
 (* in ThrottleProp.                                                        *)
+(*                                                                         *)
+(* SEVERAL THROTTLING RULES ON ONE RESOURCE (sequential callers through    *)
+(* api.Entry under the advancing virtual clock) are traces of their own:   *)
+(*   newl(tr, tol, list = <<[si, maxq, tn, td], ...>>)   the rules in list *)
+(*                                                        order            *)
+(*   invl(p, arr, b)    retl(p, res, w, by)    endl                        *)
+(* w = the TOTAL the request was made to sleep (sum of the Sleep calls of  *)
+(* that api.Entry call - before it passed or before it was rejected),      *)
+(* by = position in the list of the rule the rejection names (0: none).    *)
+(* On every return ThrottleProp!Attribute turns the observable into one    *)
+(* record per rule the request reached (instant it got there = arrival +   *)
+(* the waits attributed to the rules in front); `endl' judges the clauses  *)
+(* PER RULE over those records (ListSpacing / ListBoundedWait /            *)
+(* ListNoSpurious / ListRejectOK).                                         *)
 (***************************************************************************)
 EXTENDS ThrottleProp, Sequences, TLC, Json
 
 Trace == ndJsonDeserialize("trace.ndjson")
-VARIABLES l, g, cur, seq, reqs, pend, failed
-tvars == <<l, g, cur, seq, reqs, pend, failed>>
+VARIABLES l, g, cur, seq, reqs, pend, failed,
+          lst       \* traces with a list of rules: [rules, obs, recs, q] - the rules in list order, the request-level
+                    \* observables, recs[j] = records attributed to rule j, q = the request in flight
+tvars == <<l, g, cur, seq, reqs, pend, failed, lst>>
+NoList == [rules |-> << >>, obs |-> {}, recs |-> << >>, q |-> [id |-> 0]]
 Ev == Trace[l]
 IsEvent(op) == l <= Len(Trace) /\ Ev.op = op /\ l' = l + 1
 Procs == 1..64
@@ -51,13 +68,13 @@ TNew ==
     /\ IsEvent("new")
     /\ g' = [tr |-> Ev.tr, tol |-> Ev.tol]
     /\ cur' = RuleOf(Ev, Cur0, 0)
-    /\ seq' = 0 /\ reqs' = {} /\ pend' = [p \in Procs |-> None] /\ failed' = FALSE
+    /\ seq' = 0 /\ reqs' = {} /\ pend' = [p \in Procs |-> None] /\ failed' = FALSE /\ lst' = NoList
 
 \* a rule reload returned: from now on every arriving request is owed the parameters it carries
 TReload ==
     /\ IsEvent("reload")
     /\ cur' = RuleOf(Ev, cur, cur.ep + 1)
-    /\ UNCHANGED <<g, seq, reqs, pend, failed>>
+    /\ UNCHANGED <<g, seq, reqs, pend, failed, lst>>
 
 \* the threshold in force for the request being invoked
 ThrOf(e) == IF "mem" \in DOMAIN e THEN MemThr(cur.rule, e.mem)
@@ -69,17 +86,17 @@ TInv ==
     /\ pend' = [pend EXCEPT ![Ev.p] = [id |-> Ev.p, arr |-> Ev.arr, b |-> Ev.b, tn |-> ThrOf(Ev)[1], td |-> ThrOf(Ev)[2],
                                        si |-> cur.si, mq |-> cur.maxq, g |-> cur.ep,
                                        res |-> "pending", w |-> 0, inv |-> seq + 1, ret |-> 0]]
-    /\ UNCHANGED <<g, cur, reqs, failed>>
+    /\ UNCHANGED <<g, cur, reqs, failed, lst>>
 
 TRet ==
     /\ IsEvent("ret")
     /\ seq' = seq + 1
     /\ reqs' = reqs \cup {[pend[Ev.p] EXCEPT !.res = Ev.res, !.w = Ev.w, !.ret = seq + 1]}
     /\ pend' = [pend EXCEPT ![Ev.p] = None]
-    /\ UNCHANGED <<g, cur, failed>>
+    /\ UNCHANGED <<g, cur, failed, lst>>
 
-TStep == IsEvent("step") /\ UNCHANGED <<g, cur, seq, reqs, pend, failed>>
-TTick == IsEvent("tick") /\ UNCHANGED <<g, cur, seq, reqs, pend, failed>>
+TStep == IsEvent("step") /\ UNCHANGED <<g, cur, seq, reqs, pend, failed, lst>>
+TTick == IsEvent("tick") /\ UNCHANGED <<g, cur, seq, reqs, pend, failed, lst>>
 
 \* what the spec holds each request to (reported with a rejected trace)
 Owes(rs) == { [id |-> r.id, g |-> r.g, iv |-> Iv(r), mq |-> r.mq, big |-> Big(r)] : r \in rs }
@@ -89,10 +106,56 @@ TEnd ==
     /\ Judge(Spacing(reqs) /\ BoundedWait(reqs) /\ NoSpuriousReject(reqs, g.tol),
              [spacing |-> Spacing(reqs), boundedwait |-> BoundedWait(reqs),
               nospurious |-> NoSpuriousReject(reqs, g.tol), owes |-> Owes(reqs), reqs |-> reqs])
-    /\ UNCHANGED <<g, cur, seq, reqs, pend>>
+    /\ UNCHANGED <<g, cur, seq, reqs, pend, lst>>
+
+\* ---- several throttling rules on one resource --------------------------------------------------------------
+TNewL ==
+    /\ IsEvent("newl")
+    /\ g' = [tr |-> Ev.tr, tol |-> Ev.tol]
+    /\ lst' = [rules |-> [j \in 1..Len(Ev.list) |-> [si |-> Ev.list[j].si, mq |-> Ev.list[j].maxq, tn |-> Ev.list[j].tn, td |-> Ev.list[j].td]],
+               obs |-> {}, recs |-> [j \in 1..Len(Ev.list) |-> {}], q |-> [id |-> 0]]
+    /\ cur' = Cur0 /\ seq' = 0 /\ reqs' = {} /\ pend' = [p \in Procs |-> None] /\ failed' = FALSE
+
+TInvL ==
+    /\ IsEvent("invl")
+    /\ seq' = seq + 1
+    /\ lst' = [lst EXCEPT !.q = [id |-> Ev.p, arr |-> Ev.arr, b |-> Ev.b, res |-> "pending", w |-> 0, by |-> 0, inv |-> seq + 1, ret |-> 0]]
+    /\ UNCHANGED <<g, cur, reqs, pend, failed>>
+
+\* the call returned: attribute the total wait to the rules the request reached
+TRetL ==
+    /\ IsEvent("retl")
+    /\ seq' = seq + 1
+    /\ LET q == [lst.q EXCEPT !.res = Ev.res, !.w = Ev.w, !.by = Ev.by, !.ret = seq + 1]
+       IN lst' = [lst EXCEPT !.obs = @ \cup {q}, !.recs = Attribute(lst.rules, lst.recs, q, 1, q.arr, q.w), !.q = [id |-> 0]]
+    /\ UNCHANGED <<g, cur, reqs, pend, failed>>
+
+\* what the spec made of each request at each rule (reported with a rejected trace)
+AtRules(recs) == [j \in DOMAIN recs |-> { [id |-> r.id, at |-> r.arr, w |-> r.w, res |-> r.res, iv |-> Iv(r), mq |-> r.mq] : r \in recs[j] }]
+
+\* pairs of requests a rule admitted closer together than the later one is owed (reported with a rejected trace)
+TooClose(recs) == UNION { { [rule |-> j, a |-> a.id, passa |-> PassT(a), b |-> b.id, passb |-> PassT(b), owed |-> Iv(b)] :
+                            <<a, b>> \in { x \in Paced(recs[j]) \X Paced(recs[j]) :
+                                           /\ x[1].id # x[2].id /\ PassT(x[1]) <= PassT(x[2])
+                                           /\ PassT(x[2]) - PassT(x[1]) < Iv(x[2]) /\ ~(PassT(x[1]) - PassT(x[2]) >= Iv(x[1])) } }
+                          : j \in DOMAIN recs }
+
+\* requests a rule let through although it had to make them wait beyond its limit (reported with a rejected trace)
+OverLimit(recs, tol) == UNION { { [rule |-> j, id |-> r.id, at |-> r.arr, w |-> r.w, mq |-> r.mq] :
+                                  r \in { x \in Admitted(recs[j]) : x.w < 0 \/ x.w > x.mq + (j - 1) * tol } } : j \in DOMAIN recs }
+
+TEndL ==
+    /\ IsEvent("endl")
+    /\ Judge(/\ ListSpacing(lst.recs) /\ ListBoundedWait(lst.recs, g.tol) /\ ListNoSpurious(lst.recs, g.tol)
+             /\ ListRejectOK(lst.obs, lst.rules, g.tol),
+             [spacing |-> [j \in DOMAIN lst.recs |-> Spacing(lst.recs[j])],
+              boundedwait |-> ListBoundedWait(lst.recs, g.tol),
+              nospurious |-> [j \in DOMAIN lst.recs |-> NoSpuriousReject(lst.recs[j], j * g.tol)],
+              rejectok |-> ListRejectOK(lst.obs, lst.rules, g.tol), tooclose |-> TooClose(lst.recs), overlimit |-> OverLimit(lst.recs, g.tol), atrules |-> AtRules(lst.recs)])
+    /\ UNCHANGED <<g, cur, seq, reqs, pend, lst>>
 
 TInit == l = 1 /\ g = [tr |-> 0, tol |-> 0] /\ cur = Cur0 /\ seq = 0 /\ reqs = {}
-         /\ pend = [p \in Procs |-> None] /\ failed = FALSE
-TNext == TNew \/ TReload \/ TInv \/ TRet \/ TStep \/ TTick \/ TEnd
+         /\ pend = [p \in Procs |-> None] /\ failed = FALSE /\ lst = NoList
+TNext == TNew \/ TReload \/ TInv \/ TRet \/ TStep \/ TTick \/ TEnd \/ TNewL \/ TInvL \/ TRetL \/ TEndL
 TSpec == TInit /\ [][TNext]_tvars
 =============================================================================
